@@ -39,8 +39,6 @@ def bind_repo():
     where = os.path.dirname(os.path.abspath(vermouth.__file__))
     if not where.startswith(REPO + os.sep):
         raise HarnessError('vermouth imported from %s, not from %s' % (where, REPO))
-    import logging
-    logging.getLogger('vermouth').setLevel(logging.DEBUG)
     return vermouth
 
 
